@@ -79,11 +79,11 @@ impl MT935 {
 
             // At least one field 37H is required per sequence
             if field_37h.is_empty() {
-                return Err(crate::errors::ParseError::InvalidFormat {
-                    message: format!(
-                        "MT935: At least one field 37H is required for sequence {}",
-                        rate_changes.len() + 1
-                    ),
+                return Err(crate::errors::ParseError::MissingRequiredField {
+                    field_tag: "37H".to_string(),
+                    field_name: "field_37h".to_string(),
+                    message_type: "935".to_string(),
+                    position_in_block4: Some(parser.position()),
                 });
             }
 
